@@ -92,6 +92,15 @@ def struct_diff(t1, t2):
 def run(ctx, impl_only=False):
     n = 2500 if ctx.thorough() else 350
     pairs = FAM.gen_pairs(ctx, n) + FAM.alias_pairs(ctx, max(12, n // 12))       # incl. inputs that share objects with each other
+    # items at the same position that are == but of different types: a type change by the definition
+    pairs += [([1, 'x'], [True, 'x']), ([1.0, 2], [1, 2]), ([{1, 2}, 'x'], [frozenset({1, 2}), 'x']), ((1, [True, 2.0]), (1, [1, 2])), ({'k': [{'a': 1}]}, {'k': [{'a': True}]}),
+              ([0, 0.0, False], [False, 0, 0.0]), (((1, 2), [3]), ((1.0, 2), [3])), ([[1], [1]], [[1.0], [True]]), ({'a': (0, 'z')}, {'a': (False, 'z')})]
+    eqv = [0, 1, 2, True, False, 1.0, 0.0, 2.0]
+    for _ in range(max(10, n // 8)):
+        xs = [ctx.rng.choice(eqv + ['a', None]) for _ in range(ctx.rng.randint(1, 5))]
+        ys = [ctx.rng.choice([e for e in eqv if e == x]) if x in eqv and ctx.rng.random() < 0.6 else x for x in xs]
+        w = ctx.rng.choice([lambda v: v, lambda v: tuple(v), lambda v: {'k': v}, lambda v: [v, 'z']])
+        pairs.append((w(xs), w(ys)))
     reqs = []
     for (t1, t2) in pairs:
         case = {'t1': repr(t1), 't2': repr(t2)}
